@@ -21,7 +21,7 @@
   tools/seedcheck.py try <seed_id> [checks...]
       One seed against a scratch copy, nothing recorded (while strengthening a check).
 
-  tools/seedcheck.py sweep [-j N]
+  tools/seedcheck.py sweep [-j N] [id-prefix...]
       Regression sweep after the checks themselves changed: every seed's patch is applied to its
       own scratch copy (VERIF_REPO, removed afterwards) and the target property's quick check is
       run, N at a time. Prints the seeds no longer caught; meta.json gets "checks_sweep".
@@ -163,7 +163,8 @@ def main():
         return 0
     if a[0] == "sweep":
         j = int(a[a.index("-j") + 1]) if "-j" in a else 4
-        return sweep(j)
+        only = [x for x in a[1:] if not x.startswith("-") and not x.isdigit()]
+        return sweep(j, only)
     print(__doc__); return 2
 
 
@@ -191,9 +192,11 @@ def sweep_one(sid, only=None, record=True):
         shutil.rmtree(d, ignore_errors=True)
 
 
-def sweep(j):
+def sweep(j, only=None):
     from concurrent.futures import ThreadPoolExecutor
     sids = [os.path.basename(os.path.dirname(d)) for d in sorted(glob.glob(os.path.join(ROOT, "seeded", "*", "meta.json")))]
+    if only:
+        sids = [x for x in sids if any(x.startswith(o) for o in only)]
     bad = []
     with ThreadPoolExecutor(j) as ex:
         for sid, res in ex.map(sweep_one, sids):
